@@ -208,6 +208,21 @@ async fn run_honest_tree<TC: Configuration>(cc: &CaseCtx, case: &HistCase, rng: 
                         j.judge(l, "H1-newest-dropped", p, hp, false, &format!("k{}", k.min(3)));
                     }
                 }
+                // H1b: the absence of an EXISTING future marker "proved" for a label with the same bits but a
+                // bit length < 256 (genuinely absent): only the VRF binding of the claimed node label rejects it
+                if let Some(base) = forge.history_proof(label, &entries(&shown), cur, None).await {
+                    for (i, nm) in base.non_existence_of_future_marker_proofs.iter().enumerate() {
+                        if !forge.view.is_leaf(&nm.label) {
+                            continue;
+                        }
+                        for (_k, keep, alt) in forge.view.shortened_label_nonmembership(&nm.label) {
+                            let mut p = base.clone();
+                            p.non_existence_of_future_marker_proofs[i] = alt;
+                            l.count("H1b_shortened_label_candidates", 1);
+                            j.judge(l, if keep { "H1b-future-marker-label-shortened-bytes-kept" } else { "H1b-future-marker-label-shortened-canonical" }, p, hp, false, &format!("k{}", k.min(3)));
+                        }
+                    }
+                }
             }
             // ---- H2: oldest dropped / fewer than asked
             if total >= 2 {
